@@ -14,10 +14,12 @@ import (
 	"strconv"
 	"strings"
 	"testing"
+	"time"
 
 	"github.com/apernet/hysteria/core/v2/client"
 	"github.com/apernet/hysteria/core/v2/internal/protocol"
 	"github.com/apernet/quic-go/congestion"
+	"github.com/apernet/quic-go/monotime"
 	"verif.local/engine/evidence"
 	"verif.local/engine/vnet"
 	"verif.local/engine/vpriv"
@@ -43,6 +45,14 @@ type c10Case struct {
 	// seeded change C10-7: the client wrote the negotiated value back into the caller's Config.
 	SRx2    uint64 `json:"srx2,omitempty"`
 	Ignore2 bool   `json:"ignore2,omitempty"`
+	// kind "wire": after the handshake the controller INSTALLED on each side's connection is driven
+	// through quic-go's send contract for WireMs milliseconds of virtual monotime by a backlogged
+	// sender that is also receiving: every AckEveryMs an ACK-only packet of AckSize bytes goes out
+	// whatever the pacing budget says (AckSize 0 = a one-directional transfer). Added after the
+	// independently seeded change C10-11 (ACK-only packets were no longer charged to the bucket).
+	AckSize    int `json:"ack_only_size,omitempty"`
+	AckEveryMs int `json:"ack_only_every_ms,omitempty"`
+	WireMs     int `json:"wire_ms,omitempty"`
 }
 
 var (
@@ -160,6 +170,57 @@ func c10RefClient(serverRx uint64, auto bool, clientMaxTx uint64) uint64 {
 	return r
 }
 
+// c10Wire drives the controller installed on a connection the way quic-go's send loop does and
+// returns the bytes put on the wire in c.WireMs milliseconds of virtual monotime. The loop wakes
+// every millisecond (congestion.MinPacingDelay, the granularity of quic-go's pacing timer); at each
+// wake-up the ACK-only packet that is due goes out first - quic-go sends it even when pacing limited
+// (SendPacingLimited still allows an ACK) and reports it with isRetransmittable=false - then full-size
+// data packets while CanSend and HasPacingBudget allow. Everything sent is acknowledged at once (no
+// loss is ever reported, so no loss compensation applies: the rate enforced is the rate itself).
+// Judged by the clause "the rate reported to the application is the rate actually enforced on the
+// wire": bytes <= burst allowance of the pacer + reported rate x interval (+ one packet for rounding).
+// Added after the independently seeded change C10-11 (OnPacketSent returned early for
+// non-retransmittable packets, so the wire carried the negotiated rate PLUS the ACK traffic).
+func c10Wire(e *vsched.Exec, side string, cc congestion.CongestionControl, reported uint64, c *c10Case) {
+	if reported == 0 || cc == nil {
+		return // no fixed rate on this side: nothing reported to hold the wire against
+	}
+	if c.AckSize > 0 && uint64(c.AckSize)*1000/uint64(c.AckEveryMs)*2 > reported {
+		return // the ACK-only traffic alone is not well below the rate: the QUIC layer, not the controller, decides
+	}
+	const data = congestion.InitialPacketSize
+	var wire, acks congestion.ByteCount
+	var pn congestion.PacketNumber
+	start := monotime.Time(time.Second)
+	for tick := 0; tick < c.WireMs; tick++ {
+		now := start.Add(time.Duration(tick) * time.Millisecond)
+		if c.AckSize > 0 && tick%c.AckEveryMs == 0 {
+			cc.OnPacketSent(now, 0, pn, congestion.ByteCount(c.AckSize), false)
+			pn++
+			wire += congestion.ByteCount(c.AckSize)
+			acks += congestion.ByteCount(c.AckSize)
+		}
+		for n := 0; cc.CanSend(0) && cc.HasPacingBudget(now); n++ {
+			if n > 1<<20 {
+				e.Fail("%s: the installed controller grants pacing budget without end at one instant (fixed rate %d)", side, reported)
+				return
+			}
+			cc.OnPacketSent(now, data, pn, data, true)
+			pn++
+			wire += data
+		}
+	}
+	burst := congestion.ByteCount(10 * data)
+	if b := congestion.ByteCount(reported / 1000 * 4); b > burst {
+		burst = b // 4 x MinPacingDelay worth of the rate
+	}
+	limit := burst + congestion.ByteCount(float64(reported)*float64(c.WireMs)/1000) + data
+	if wire > limit {
+		e.Fail("%s: reported fixed rate %d B/s, but the installed controller let %d bytes onto the wire in %d ms (%d of them in ACK-only packets of %d bytes sent every %d ms regardless of pacing, isRetransmittable=false): %.0f B/s, allowed %d bytes (burst %d + rate x interval + one packet): the rate reported to the application is not the rate enforced on the wire",
+			side, reported, wire, c.WireMs, acks, c.AckSize, c.AckEveryMs, float64(wire)*1000/float64(c.WireMs), limit, burst)
+	}
+}
+
 func c10Run(c *c10Case) string {
 	o := vsched.RunDefault(vsched.Options{}, func(e *vsched.Exec) {
 		typ, prof := c10SplitCC(c.CC)
@@ -207,6 +268,28 @@ func c10Run(c *c10Case) string {
 					e.Fail("client socket left open after Close")
 				}
 			}
+		case "wire":
+			f := &c10Factory{}
+			cl, info, err := client.NewClient(&client.Config{
+				ConnFactory: f, ServerAddr: r.pc.LocalAddr(), Auth: "good",
+				BandwidthConfig:  client.BandwidthConfig{MaxTx: c.CTx, MaxRx: c.CRx},
+				CongestionConfig: client.CongestionConfig{Type: typ, BBRProfile: prof},
+			})
+			if err != nil {
+				e.Fail("NewClient: %v", err)
+				return
+			}
+			cconn := vquic.GetNet(e).Conns[0]
+			sconn := cconn.Peer()
+			i := r.firstIndex(func(ev rigEvent) bool { return ev.Kind == "connect" })
+			if i < 0 {
+				e.Fail("no Connect event on the server: %v", r.Events)
+				return
+			}
+			// each side's wire is held against what THAT side told its application
+			c10Wire(e, "client (HandshakeInfo.Tx)", cconn.Congestion(), info.Tx, c)
+			c10Wire(e, "server (Connect event tx)", sconn.Congestion(), r.Events[i].N, c)
+			_ = cl.Close()
 		case "reuse":
 			cfg := &client.Config{
 				ServerAddr: r.pc.LocalAddr(), Auth: "good",
@@ -390,7 +473,11 @@ func c10Enumerate(sh *evidence.Shard) {
 		}
 		if clause != "" {
 			cc := c
-			sh.Violate(p.Name, fmt.Sprintf("%s/%s/ctx=%d,crx=%d,stx=%d,srx=%d,ignore=%v,cc=%s,hdr=%q,noudp=%v", p.Name, strings.SplitN(clause, ";", 2)[0], c.CTx, c.CRx, c.STx, c.SRx, c.Ignore, c.CC, c.Hdr, c.NoUDP), clause, &cc)
+			sig := fmt.Sprintf("%s/%s/ctx=%d,crx=%d,stx=%d,srx=%d,ignore=%v,cc=%s,hdr=%q,noudp=%v", p.Name, strings.SplitN(clause, ";", 2)[0], c.CTx, c.CRx, c.STx, c.SRx, c.Ignore, c.CC, c.Hdr, c.NoUDP)
+			if c.Kind == "wire" {
+				sig = fmt.Sprintf("%s/%s/ctx=%d,crx=%d,stx=%d,srx=%d,ack_only=%dB/%dms", p.Name, strings.SplitN(strings.SplitN(clause, ",", 2)[0], ";", 2)[0], c.CTx, c.CRx, c.STx, c.SRx, c.AckSize, c.AckEveryMs)
+			}
+			sh.Violate(p.Name, sig, clause, &cc)
 		}
 		return sh.NViolations() < 6
 	}
@@ -426,6 +513,36 @@ func c10Enumerate(sh *evidence.Shard) {
 							if !run(p3, c10Case{Kind: "reuse", CTx: ctx, CRx: 500000, SRx: s1, Ignore: i1, SRx2: s2, Ignore2: i2, CC: cc}) {
 								return
 							}
+						}
+					}
+				}
+			}
+		}
+	}
+	// the installed controllers driven through the send contract with a mix of packet kinds; added
+	// after the independently seeded change C10-11 (ACK-only packets bypassed the fixed rate)
+	p4 := sh.Part("wire-bytes-under-the-installed-controller", "enum")
+	wireRates := []uint64{65537, 1 << 20}
+	wireCaps := []uint64{0, 65537}
+	wireAcks := [][2]int{{0, 0}, {40, 2}, {40, 5}, {60, 2}, {60, 5}}
+	wireMs := 2000
+	if env.Thorough() {
+		wireRates = []uint64{65536, 65537, 1 << 20, 12500000}
+		wireCaps = []uint64{0, 65537, 1 << 20}
+		wireAcks = [][2]int{{0, 0}, {40, 2}, {40, 5}, {60, 2}, {60, 5}, {25, 1}, {100, 4}, {1252, 100}}
+		wireMs = 3000
+	}
+	p4.Alphabet = map[string]any{"client MaxTx / client MaxRx (= the two fixed rates)": wireRates, "server MaxRx / server MaxTx (caps)": wireCaps,
+		"ACK-only packets (bytes, every ms; isRetransmittable=false, sent regardless of pacing; 0 = none)": wireAcks, "virtual ms driven": wireMs,
+		"send loop": "wakes every 1 ms: the due ACK-only packet first, then full-size data packets while CanSend && HasPacingBudget; no loss reported",
+		"oracle":    "wire bytes <= pacer burst + rate reported to the application x interval + one packet, on each side"}
+	for _, ctx := range wireRates {
+		for _, crx := range wireRates {
+			for _, srx := range wireCaps {
+				for _, stx := range wireCaps {
+					for _, a := range wireAcks {
+						if !run(p4, c10Case{Kind: "wire", CTx: ctx, CRx: crx, STx: stx, SRx: srx, CC: "bbr:standard", AckSize: a[0], AckEveryMs: a[1], WireMs: wireMs}) {
+							return
 						}
 					}
 				}
